@@ -782,5 +782,120 @@ theorem mem_of_below {ops : List Op} {T : Store} (hb : Below ops T) :
               · exact ho
               · exact ih'.2 p hp
 
+/-! ### independence of disequations (infinitely many function symbols) -/
+
+mutual
+/-- the names of the compound-term functors occurring in a term. -/
+def funs : Term → List String
+  | .str f args => f :: funsL args
+  | _ => []
+def funsL : List Term → List String
+  | [] => []
+  | t :: ts => funs t ++ funsL ts
+end
+
+theorem mem_funsL {g : String} : ∀ {ts : List Term}, g ∈ funsL ts ↔ ∃ t ∈ ts, g ∈ funs t
+  | [] => by simp [funsL]
+  | t :: ts => by simp [funsL, mem_funsL (ts := ts)]
+
+/-- a string that is longer than every string of the list. -/
+def freshName : List String → String
+  | [] => "x"
+  | s :: r => s ++ freshName r
+
+theorem freshName_pos : ∀ (l : List String), 0 < (freshName l).length
+  | [] => by decide
+  | s :: r => by
+      have := freshName_pos r
+      simp only [freshName, String.length_append]; omega
+
+theorem length_lt_freshName : ∀ {l : List String} {s : String}, s ∈ l →
+    s.length < (freshName l).length
+  | a :: r, s, h => by
+      simp only [freshName, String.length_append]
+      rcases List.mem_cons.mp h with rfl | h
+      · have := freshName_pos r; omega
+      · have := length_lt_freshName h; omega
+
+theorem freshName_not_mem (l : List String) : freshName l ∉ l :=
+  fun h => Nat.lt_irrefl _ (length_lt_freshName h)
+
+/-- the grounding substitution `x ↦ g(x)` (`x` as an atom) for a functor name `g`. -/
+def tag (g : String) : String → Term := fun x => .str g [.atom x]
+
+theorem map_tag_inj {g : String} : ∀ (as bs : List Term),
+    (∀ a ∈ as, ∀ t, g ∉ funs a → g ∉ funs t → a.subst (tag g) = t.subst (tag g) → a = t) →
+    (∀ a ∈ as, g ∉ funs a) → (∀ b ∈ bs, g ∉ funs b) →
+    as.map (subst (tag g)) = bs.map (subst (tag g)) → as = bs
+  | [], [], _, _, _, _ => rfl
+  | [], _ :: _, _, _, _, h => by simp at h
+  | _ :: _, [], _, _, _, h => by simp at h
+  | a :: as, b :: bs, ih, ha, hb, h => by
+      simp only [List.map_cons, List.cons.injEq] at h
+      have e1 := ih a (by simp) b (ha a (by simp)) (hb b (by simp)) h.1
+      have e2 := map_tag_inj as bs (fun x hx => ih x (List.mem_cons_of_mem _ hx))
+        (fun x hx => ha x (List.mem_cons_of_mem _ hx))
+        (fun x hx => hb x (List.mem_cons_of_mem _ hx)) h.2
+      rw [e1, e2]
+
+/-- instantiating every variable by a term with a functor that occurs in neither term keeps
+    different terms different. -/
+theorem tag_inj {g : String} (s : Term) : ∀ t, g ∉ funs s → g ∉ funs t →
+    s.subst (tag g) = t.subst (tag g) → s = t := by
+  induction s using induct' with
+  | hvar x =>
+      intro t _ ht h
+      cases t with
+      | var y => simp [tag] at h; rw [h]
+      | str k bs => simp [tag] at h; exact absurd (by simp [funs, h.1]) ht
+      | _ => simp [tag] at h
+  | hstr k as ih =>
+      intro t hs ht h
+      cases t with
+      | var y => simp [tag] at h; exact absurd (by simp [funs, h.1]) hs
+      | str k' bs =>
+          simp only [subst_str, Term.str.injEq] at h
+          have hs' : ∀ a ∈ as, g ∉ funs a := fun a ha hg =>
+            hs (by simp only [funs, List.mem_cons]; exact Or.inr (mem_funsL.mpr ⟨a, ha, hg⟩))
+          have ht' : ∀ b ∈ bs, g ∉ funs b := fun b hb hg =>
+            ht (by simp only [funs, List.mem_cons]; exact Or.inr (mem_funsL.mpr ⟨b, hb, hg⟩))
+          rw [h.1, map_tag_inj as bs ih hs' ht' h.2]
+      | _ => simp at h
+  | hint v => intro t _ _ h; cases t <;> simp_all [tag]
+  | hrat n d => intro t _ _ h; cases t <;> simp_all [tag]
+  | hflt b => intro t _ _ h; cases t <;> simp_all [tag]
+  | hatom a => intro t _ _ h; cases t <;> simp_all [tag]
+
+/-- INDEPENDENCE: if the equations are satisfiable and entail none of the (finitely many)
+    identities `d ∈ D`, one solution falsifies all of them at once. -/
+theorem independent {σ : Subst} {E : Eqs} (h : IsMgu σ E) (D : List (Term × Term))
+    (hD : ∀ d ∈ D, ¬Entails E d) :
+    ∃ θ, Unifies θ E ∧ ∀ d ∈ D, d.1.subst θ ≠ d.2.subst θ := by
+  let names := D.flatMap fun d => funs (applyS σ d.1) ++ funs (applyS σ d.2)
+  let g := freshName names
+  have hg : ∀ d ∈ D, g ∉ funs (applyS σ d.1) ∧ g ∉ funs (applyS σ d.2) := by
+    intro d hd
+    have hn := freshName_not_mem names
+    constructor
+    · intro hm; exact hn (List.mem_flatMap.mpr ⟨d, hd, List.mem_append_left _ hm⟩)
+    · intro hm; exact hn (List.mem_flatMap.mpr ⟨d, hd, List.mem_append_right _ hm⟩)
+  refine ⟨fun x => (σ.toFun x).subst (tag g), ?_, ?_⟩
+  · intro p hp
+    rw [← subst_subst, ← subst_subst, h.unifies p hp]
+  · intro d hd e
+    rw [← subst_subst, ← subst_subst, ← applyS_eq_subst, ← applyS_eq_subst] at e
+    have := tag_inj _ _ (hg d hd).1 (hg d hd).2 e
+    exact hD d hd ((h.identical_iff d).mp ((eqb_iff _ _).mpr this))
+
+/-- every satisfiable set of equations has a most general unifier (the one `unify` computes). -/
+theorem exists_mgu {E : Eqs} (h : Sat E) : ∃ σ, IsMgu σ E := by
+  cases hu : unify E [] with
+  | some σ =>
+      have G := solve_nil_ok (unify_eq_some.mp hu)
+      exact ⟨σ, G.unifies, G.mgu⟩
+  | none =>
+      obtain ⟨θ, hθ⟩ := h
+      exact absurd hθ (solve_nil_fail (unify_eq_none.mp hu) θ)
+
 end Coroutine
 end Scryer
